@@ -6,6 +6,7 @@ set -u
 src=$(readlink -f "$1"); id=$2; prop=$3; tests=$4; checks=$5
 d=$(mktemp -d /tmp/seed-XXXXXX); cp -r /repo/. "$d"/
 cd "$d"
+if [ -n "${BASE_COMMIT:-}" ]; then git checkout -q "$BASE_COMMIT" -- pyworkers || { echo "cannot check out $BASE_COMMIT"; rm -rf "$d"; exit 3; }; fi
 mkdir -p "$d/seeded/x"; cp "$src/demo.py" "$d/seeded/x/demo.py"     # demos may locate the library relative to their own path
 PYTHONPATH="$d" timeout 180 /venv/bin/python "$d/seeded/x/demo.py" > "$d/demo_clean.log" 2>&1; rc_clean=$?
 git apply "$src/patch.diff" || { echo "PATCH DOES NOT APPLY"; rm -rf "$d"; exit 3; }
@@ -39,6 +40,7 @@ meta={'id':id_,'breaks_property':prop,
  'confirmed':{'demo_on_clean_code_exit':int(rc_clean),'demo_with_change_exit':int(rc_mut),'demo_with_change_output':msg,
               'existing_tests_with_change':{'files':tests,'exit':int(rc_tests),'summary':ts}},
  'checks_run_against_change':caught,
+ 'base_commit': __import__('os').environ.get('BASE_COMMIT') or 'HEAD of /repo at the time',
  'how':'tools/confirm_seeded.sh: scratch copy of /repo HEAD under /tmp (removed afterwards); demo run before/after git apply; pytest on the listed files with the change; ./check with VERIF_REPO=<copy>'}
 json.dump(meta,open('/verif/seeded/%s/meta.json'%id_,'w'),indent=1)
 print('  demo clean rc=%s, with change rc=%s; tests rc=%s (%s)'%(rc_clean,rc_mut,rc_tests,ts))
